@@ -108,7 +108,7 @@ Definition graph_wf_b : bool :=
 Definition writer_blocking (l : leafk) : bool :=
   match l with
   | Acquire k => N.eqb k lock_Router_mu
-  | ChanOp | Select | CondWait | WaitGroupWait => true
+  | ChanOp | Select | CondWait | WaitGroupWait | Sleep | SpinLoad => true
   end.
 
 Definition is_router_mu (l : leafk) : bool :=
